@@ -219,30 +219,22 @@ def dispatch(rep, ctx, sfx):
     # modifiers (non WHITESPACE/COMMENT rules)
     vfn = ctx.vm.fn(c02.VM + "::parse_rule")
     seen = {}
-    hctx = hirq.Ctx(vfn)
-    for mm in [x for x in walk(vfn["body"]) if kind(x) == "Match" and c02.RTYPE in x.get("sty", "")]:
-        is_ws = None
-        for g in hctx.guards(mm):
-            if g[0] == "if":
-                lits = set(x.get("v") for x in walk(g[1]) if kind(x) == "Lit")
-                if {"WHITESPACE", "COMMENT"} <= lits:
-                    is_ws = g[2]
-        if is_ws:
+    adt = ctx.meta.adt(c02.RTYPE)
+    variants = [v["name"] for v in adt["variants"]] if adt else list(MODIFIERS)
+    for (name, isws), body in sorted(c02.vm_modifier_arms(vfn, variants).items()):
+        if isws:
             continue
-        for arm in mm["arms"]:
-            for v in hirq.pat_variants(arm["pat"]):
-                hf = terms.HirFront(vfn, {}, rec_callees=[c02.VM + "::parse_expr"], skip_callees=[c02.VM + "::skip"],
-                                    rule_callees=[c02.VM + "::parse_rule"])
-                t = hf.term(arm["body"])
-                ws, body = c02.wrappers(norm(t))
-                name = v.split("::")[-1]
-                seen[name] = True
-                r.instance("modifier:" + name, where(arm["body"]), str(ws))
-                if hf.problems or body[0] != "rec":
-                    r.violation("modifier:%s:shape" % name, where(arm["body"]), "modifier arm not understood")
-                elif ws != MODIFIERS.get(name):
-                    r.violation("modifier:" + name, where(arm["body"]),
-                                "rule modifier %s wraps the body as %s, documented nesting is %s" % (name, ws, MODIFIERS.get(name)))
+        hf = terms.HirFront(vfn, {}, rec_callees=[c02.VM + "::parse_expr"], skip_callees=[c02.VM + "::skip"],
+                            rule_callees=[c02.VM + "::parse_rule"])
+        t = hf.term(body)
+        ws, tbody = c02.wrappers(norm(t))
+        seen[name] = True
+        r.instance("modifier:" + name, where(body), str(ws))
+        if hf.problems or tbody[0] != "rec":
+            r.violation("modifier:%s:shape" % name, where(body), "modifier arm not understood")
+        elif ws != MODIFIERS.get(name):
+            r.violation("modifier:" + name, where(body),
+                        "rule modifier %s wraps the body as %s, documented nesting is %s" % (name, ws, MODIFIERS.get(name)))
     for name in MODIFIERS:
         if name not in seen:
             r.violation("modifier:" + name, where(vfn["body"]), "no VM arm for rule modifier %s" % name)
